@@ -1659,9 +1659,30 @@ def with_macros(text, rng):
     macros = []
     out = []
     k = 0
-    for line in lines:
+    skip = False
+    for n, line in enumerate(lines):
         s = line.strip()
-        if (s.startswith("effort ") or s.startswith("priority ") or s.startswith("allocate ")) and "{" not in s and rng.random() < 0.5:
+        if skip:
+            skip = False
+            continue
+        nxt = lines[n + 1].strip() if n + 1 < len(lines) else ""
+        plain = lambda x: not any(c in x for c in ("#", "//", "/*", "{", "$"))
+        if s.startswith("depends ") and plain(s) and rng.random() < 0.5:
+            # a list passed as ONE argument (no blanks): `${m !a,!!b}` is `depends !a,!!b`
+            refs = [s.split(None, 1)[1].strip()]
+            if nxt.startswith("depends ") and plain(nxt):
+                refs.append(nxt.split(None, 1)[1].strip())
+                skip = True
+            name = "m%d" % k
+            k += 1
+            macros.append("macro %s [ depends $1 ]" % name)
+            out.append(line.replace(s, "${%s %s}" % (name, ",".join(r.replace(" ", "") for r in refs))))
+        elif s.startswith("allocate ") and plain(s) and "," in s and rng.random() < 0.5:
+            name = "m%d" % k
+            k += 1
+            macros.append("macro %s [ allocate $1 ]" % name)
+            out.append(line.replace(s, "${%s %s}" % (name, s.split(None, 1)[1].replace(" ", ""))))
+        elif (s.startswith("effort ") or s.startswith("priority ") or s.startswith("allocate ")) and "{" not in s and rng.random() < 0.5:
             name = "m%d" % k
             k += 1
             if s.startswith("effort ") and rng.random() < 0.5:
